@@ -137,6 +137,28 @@ CHECKS = {
                   "a set of days is represented by its sorted members.",
              tech="Lean 4 proof (`decide +kernel` over the finite decision domain, lifted by arithmetic lemmas) + correspondence",
              ref="§7 C13"),
+ "C15": dict(text="Lean theorems for EVERY IR set that loads and every request of the enum domains: build_spec (the model of build_command "
+                  "equals the Spec's command: refusal of exactly the unsupported modes, 'off' for non-toggle OFF, toggle prefix only when a "
+                  "toggle remote must change state, temperature clamped into the set's range, the BEST KEY of the request, KeyError when "
+                  "nothing is stored there); bestKey_isBest (declarative: most specific stored candidate, every more specific one absent); "
+                  "capabilities (modes, temperature range, toggle, separate swing are those present in the set, via invariants of the "
+                  "capability fold); payload (four zero bytes + text, LE16 length) for every text length. Correspondence on generated IR sets "
+                  "loaded through the real classes (and the manager + JSON), Spec judge on every build.",
+             note="Trusted: Lean kernel (propext, Classical.choice, Quot.sound), generated command tables, re.match/isdigit/json as "
+                  "modelled for ASCII; requested temperature |t| <= 100 in build_spec (domain 0..60).",
+             tech="Lean 4 proof (fold invariants, recursion on key prefixes) + differential correspondence + Spec judge",
+             ref="§7 C15"),
+ "C16": dict(text="Lean theorems about the thermostat-control program for every current state, request subset, remote and device behaviour: "
+                  "merge_spec/separate_swing_excluded (what is sent per setting); status_update_frames (update-only: exactly login, state "
+                  "query and the reference status frame of the merged settings, no IR frame); command_frame_payload (the IR frame is the "
+                  "reference frame of build_command's payload for the merged settings and the reported previous state); swing_frame_iff; "
+                  "nothing_actionable (RuntimeError after login); never_false_success (induction over the interaction tree: a reported "
+                  "success implies no consumed reply was empty, for ALL reply sequences). Correspondence: subsets x states x remotes x "
+                  "update flag, empty reply injected at each step, Spec judges per frame.",
+             note="Trusted: Lean kernel (propext, Classical.choice, Quot.sound), scripted reader, Python truthiness of the arguments as modelled "
+                  "(target_temp 0 = omitted; enum members truthy).",
+             tech="Lean 4 proof (interaction-tree invariants, frame reflection) + fault-injection correspondence + Spec judge",
+             ref="§7 C16"),
 }
 NOT_YET = "check not built yet in this revision (work in progress; see DESIGN.md Appendix B)"
 m = {
